@@ -3,7 +3,7 @@
 seed=$1; tier=${2:-quick}; d=/verif/seeded/$seed
 id=$(python3 -c "import json;print(json.load(open('$d/meta.json'))['property'])")
 [ -n "$(git -C /repo status --porcelain)" ] && { echo "/repo not clean"; exit 2; }
-git -C /repo apply "$d/patch.diff" || exit 2
+git -C /repo apply "$d/patch.diff" 2>/dev/null || { git -C /repo apply --3way "$d/patch.diff" >/dev/null 2>&1 && git -C /repo reset -q; } || { echo "patch does not apply"; exit 2; }
 cd /verif && ./vcheck $id --tier $tier > /tmp/try-$seed.log 2>&1; rc=$?
 git -C /repo checkout -- .
 echo "seed=$seed check=$id tier=$tier exit=$rc"; grep -m3 "VIOLATION\|INCONCLUSIVE" /tmp/try-$seed.log; tail -n 1 /tmp/try-$seed.log
